@@ -37,7 +37,7 @@ pub fn prop() -> Prop {
         stub: &["transport", "store", "glue", "random source", "Byzantine sender"],
         independent: &[],
         ref_sample: |_| 0,
-        required_probes: &["route_suite_crate_entry_points", "route_frost_core_generics", "kind_proof_response", "kind_proof_commitment", "kind_proof_other_identifier", "kind_proof_other_commitment", "kind_coeff_0", "kind_coeff_last", "kind_len_t_minus_1", "kind_len_t_plus_1", "kind_len_0", "kind_len_t_plus_65536", "kind_share_plus_1", "kind_share_zero", "kind_share_other_recipient", "kind_r1_under_own_id", "kind_r1_under_unknown_id", "kind_r1_missing", "kind_r1_surplus", "kind_r2_under_own_id", "kind_r2_missing", "receiver_last_sender_checked"],
+        required_probes: &["route_suite_crate_entry_points", "route_frost_core_generics", "kind_proof_response", "kind_proof_commitment", "kind_proof_other_identifier", "kind_proof_other_commitment", "kind_coeff_0", "kind_coeff_last", "kind_len_t_minus_1", "kind_len_t_plus_1", "kind_len_0", "kind_len_t_plus_65536", "kind_share_plus_1", "kind_share_zero", "kind_share_other_recipient", "kind_r1_under_own_id", "kind_r1_under_unknown_id", "kind_r1_missing", "kind_r1_surplus", "kind_r2_under_own_id", "kind_r2_missing", "kind_both_missing", "kind_both_surplus", "receiver_last_sender_checked"],
         prepare: None,
     }
 }
@@ -111,6 +111,18 @@ enum Expect {
 enum Step {
     Part2,
     Part3,
+    /// part2 has run on the honest map; part3 is handed another pair of maps (what the participant holds when it gets there)
+    Part3Only,
+}
+
+/// A complete, internally valid contribution of an identifier outside the group (own polynomial, valid proof, the share it would
+/// send to `to`).
+fn outsider_contribution<C: Suite>(scen: &Scenario, outsider: Identifier<C>, n: u16, t: u16, to: Identifier<C>) -> Option<(round1::Package<C>, round2::Package<C>)> {
+    let rng = crate::simrng::SimRng::good(stream(scen.seed, scen.run, "c08/outsider"));
+    let (sec, pkg) = dkg::part1::<C, _>(outsider, n, t, rng).ok()?;
+    let coeffs = crate::props::c07::r1_secret_coeffs::<C>(&serde_json::to_string(&sec).ok()?)?;
+    let share = poly_eval::<C>(&coeffs, id_scalar::<C>(&to));
+    Some((pkg, round2::Package::new(share_from_scalar::<C>(&share))))
 }
 
 fn exec_c<C: Suite>(scen: &Scenario) -> Exec {
@@ -346,6 +358,21 @@ fn exec_c<C: Suite>(scen: &Scenario) -> Exec {
                 let mut m = r2.clone();
                 m.insert(outsider, r2[&jid].clone());
                 cases.push(("r2_surplus".into(), Step::Part3, Expect::Fails, outsider, r1.clone(), m));
+                // a contribution missing / surplus CONSISTENTLY in both maps by the time part3 runs (part2 saw the honest map): the
+                // statement lists a missing or surplus contribution without tying it to a step, and the two maps agreeing with
+                // each other does not make a group of n-1 or n+1 the group this participant set out to join
+                let mut m1 = r1.clone();
+                m1.remove(&jid);
+                let mut m2 = r2.clone();
+                m2.remove(&jid);
+                cases.push(("both_missing".into(), Step::Part3Only, Expect::Fails, jid, m1, m2));
+                if let Some((opkg, oshare)) = outsider_contribution::<C>(scen, outsider, n as u16, t as u16, ids[i]) {
+                    let mut m1 = r1.clone();
+                    m1.insert(outsider, opkg);
+                    let mut m2 = r2.clone();
+                    m2.insert(outsider, oshare);
+                    cases.push(("both_surplus".into(), Step::Part3Only, Expect::Fails, outsider, m1, m2));
+                }
             }
 
             for (kind, step, expect, slot, m1, m2) in cases {
@@ -357,7 +384,7 @@ fn exec_c<C: Suite>(scen: &Scenario) -> Exec {
                 trials += 1;
                 rep.evaluations += 1;
                 rep.probe(&format!("kind_{kind}"));
-                if j == last_sender && matches!(step, Step::Part3) {
+                if j == last_sender && matches!(step, Step::Part3 | Step::Part3Only) {
                     rep.probe("receiver_last_sender_checked");
                 }
                 rep.extra_shapes.push(format!("{}|n{}t{}|{}|{i}|{j}|{kind}", scen.suite, scen.n, scen.t, scen.id_scheme));
@@ -365,6 +392,10 @@ fn exec_c<C: Suite>(scen: &Scenario) -> Exec {
                 let who = format!("receiver {i}, sender {j}, fault {kind}");
                 let err: Option<frost::Error<C>> = match step {
                     Step::Part2 => match dkg_part2::<C>(snap.r1_secret[i].clone(), &m1) {
+                        Ok(_) => None,
+                        Err(e) => Some(e),
+                    },
+                    Step::Part3Only => match dkg_part3::<C>(&snap.r2_secret[i], &m1, &m2) {
                         Ok(_) => None,
                         Err(e) => Some(e),
                     },
